@@ -182,7 +182,16 @@ func (e *Engine) loadSpecLibs() error {
 		for _, form := range forms {
 			name, sig, ok := parseFunSig(form)
 			if ok {
-				e.specFuncs[name] = sig
+				th := ""
+				if parts := strings.SplitN(base, ".", 2); len(parts) == 2 {
+					th = parts[1]
+				}
+				if th == "" || th == "bv" {
+					e.specFuncs[name+"|bv"] = sig
+				}
+				if th == "" || th == "int" {
+					e.specFuncs[name+"|int"] = sig
+				}
 			}
 		}
 	}
@@ -490,10 +499,20 @@ func (e *Engine) TranslateFunc(key string) (res *funcResult) {
 	}
 	pre.Goto(entry)
 	t.proc.RangeFact = func(c *Cell) Expr {
-		if typ, ok := t.cellTyp[c.Name]; ok {
-			return t.typeInv(c, typ)
+		typ, ok := t.cellTyp[c.Name]
+		if !ok {
+			return nil
 		}
-		return nil
+		if strings.HasPrefix(c.Name, "M_") || strings.HasPrefix(c.Name, "H_") {
+			// typed memory / heap field: every element satisfies the element type's invariant
+			a := &Var{"a!r", th.Addr()}
+			inv := t.typeInv(Select(c, a), typ)
+			if inv == nil {
+				return nil
+			}
+			return &Quant{Forall: true, Vars: []*Var{a}, Body: inv, Pats: [][]Expr{{Select(c, a)}}}
+		}
+		return t.typeInv(c, typ)
 	}
 	libs := append([]string{}, fc.Uses...)
 	obls, err := GenVCs(t.proc, e.prelude(th, libs))
@@ -534,10 +553,30 @@ func (t *fnTrans) emitTopReturn(f *frame, rs []sval) {
 			env.names["ret"] = sv
 		}
 	}
+	t.cur.Cmds = append(t.cur.Cmds, Cmd{Kind: CAssert, E: False, Name: "canary/return", ExpectSat: true, Props: fc.Props})
 	for _, e := range fc.Ensures {
 		t.cur.Assert(f.specBool(e.E, env), "ensures/"+e.Label, propsOr(e.Props, fc.Props))
 	}
-	t.cur.Cmds = append(t.cur.Cmds, Cmd{Kind: CAssert, E: False, Name: "canary/return", ExpectSat: true, Props: fc.Props})
+	if len(fc.Updates) > 0 {
+		// exact memory effect: final memory == old memory with the listed stores
+		oenv := f.bodyEnv(true)
+		oenv.inOld = true
+		want := map[string]Expr{}
+		cells := map[string]*Cell{}
+		var order []string
+		for _, u := range fc.Updates {
+			mem, addr, v := f.specUpdate(u, oenv)
+			if _, ok := want[mem.Name]; !ok {
+				want[mem.Name] = t.oldOf(mem)
+				cells[mem.Name] = mem
+				order = append(order, mem.Name)
+			}
+			want[mem.Name] = Store(want[mem.Name], addr, v)
+		}
+		for _, n := range order {
+			t.cur.Assert(Eq(cells[n], want[n]), "updates/"+strings.TrimPrefix(n, "M_"), fc.Props)
+		}
+	}
 }
 
 // loopHeadsInSourceOrder: targets of DFS back edges, ordered by the smallest
